@@ -117,6 +117,7 @@ fn new(grm: &YaccGrammar, sg: &StateGraph) -> (r: Result<Tables, StateTableError
                 let ref_stidx = &edges_[ei_].1;
                 assert((ref_stidx.0 as nat) < ns);
     //@end
+    //@rule n=1 `shift_reduce\.sort_by_key\(\|&\(tidx, _, stidx\)\| \(stidx, tidx\)\);` => `sort_by_state_and_token(&mut shift_reduce); assert(sr_sorted(shift_reduce@)); // OBL: C15.shift_reduce_conflicts_listed_by_state_and_token_whatever_the_edge_order`
     //@rule n=* `pidx\.cmp\(&r_pidx\)` => `pidx_cmp(pidx, r_pidx)`
     //@rule n=1 `^(\s*)match pidx_cmp\(pidx, r_pidx\) \{$` => `\1let ghost rr_before_ = reduce_reduce@;\n\1match pidx_cmp(pidx, r_pidx) {`
     //@after n=1 `match pidx_cmp\(pidx, r_pidx\) \{` =>>
